@@ -86,7 +86,7 @@ def expected_map(op, pre, prev):
 TRANSFORMS = ("translate", "rotate", "scale", "scale_xyz", "normalize", "fit", "to_origin", "flatten")
 DERIVED = ("subdiv", "border", "tree", "path", "cutgraph", "features")
 EXTERNAL = ("proc", "load", "subdiv", "border", "arr", "tree", "path", "cutgraph", "features")
-STATE_OPS = ("attr", "attr_edit", "elem_edit")
+STATE_OPS = ("attr", "attr_edit", "elem_edit", "grow")
 
 
 def check_case(case, steps):
@@ -95,6 +95,7 @@ def check_case(case, steps):
     notes = []
     prev = []            # previous observation (list of {"xyz","cls"})
     before = {}          # step index -> coordinates of the target before that step (for inverse pairs)
+    graph_seen = set()
     for k, (op, st) in enumerate(zip(ops, steps)):
         name = op[0]
         if not st["ok"]:
@@ -131,6 +132,23 @@ def check_case(case, steps):
             if cur[i]["elems"] != prev[i]["elems"]:
                 fails.append((k, name + "/changes-other-elements",
                               "step %d %s on object %s changed the element lists of object %d" % (k, name, target, i)))
+        # object graph: a mesh never refers back to another live mesh, two meshes never reach one mutable sub-object
+        for i, j, what in st.get("backrefs") or []:
+            if (i, j, what) not in graph_seen:          # reported once, at the step that creates the reference
+                graph_seen.add((i, j, what))
+                fails.append((k, name + "/references-another-mesh",
+                              "step %d %s: object %d refers to live object %d through %s" % (k, name, i, j, what)))
+        for i, j, what in st.get("shared") or []:
+            if (i, j, what) not in graph_seen:
+                graph_seen.add((i, j, what))
+                fails.append((k, name + "/shares-mutable-subobject",
+                              "step %d %s: objects %d and %d both hold %s" % (k, name, i, j, what)))
+        # connectivity answers come from the object's OWN containers
+        if name == "conn" and st.get("conn") is not None:
+            msg = check_conn(cur[op[1]], st["conn"])
+            if msg:
+                fails.append((k, "conn/answers-not-from-own-containers",
+                              "step %d connectivity of object %d (%s): %s" % (k, op[1], "after clear()" if op[2] else "as cached", msg)))
         # attribute stores are never shared between live objects
         seen = {}
         for i, o in enumerate(cur):
@@ -233,8 +251,10 @@ def check_case(case, steps):
         # ---- 3a. attribute / element edits change exactly what they address
         if name in STATE_OPS:
             t0, t1 = prev[target], cur[target]
-            if t1["xyz"] != t0["xyz"]:
+            if t1["xyz"] != t0["xyz"] and name != "grow":
                 fails.append((k, name + "/moves-vertices", "step %d %s changed coordinates" % (k, name)))
+            for t_ in (t0, t1):
+                t_["attrs_keys"] = [x[:2] for x in t_["attrs"]]
             if name == "attr":
                 want = [x for x in t0["attrs"] if not (x[0] == op[2] and x[1] == op[3])]
                 n = len(t1["elems"][{1: 0, 2: 1, 4: 2}[op[2]]]) if op[2] in (1, 2, 4) else None
@@ -251,6 +271,20 @@ def check_case(case, steps):
                 if t1["attrs"] != want or t1["elems"] != t0["elems"]:
                     fails.append((k, "attr_edit/values", "step %d attribute edit: %s -> %s, expected %s"
                                   % (k, _short(t0["attrs"]), _short(t1["attrs"]), _short(want))))
+            elif name == "grow":
+                nv = len(t0["xyz"])
+                E, Fc, C = [list(map(list, x)) for x in t0["elems"]]
+                k0 = (_info_of(steps, ops, target) or {}).get("kind", 1)
+                if k0 == 0:
+                    pass
+                elif Fc or k0 >= 2:
+                    a, b = E[0]
+                    Fc = Fc + [[a, b, nv]]
+                    E = E + [sorted([a, nv]), sorted([b, nv])]
+                else:
+                    E = E + [[nv - 1, nv]]
+                if t1["xyz"] != t0["xyz"] + [[float(c) for c in op[2]]] or t1["elems"] != [E, Fc, C] or t1["attrs_keys"] != t0["attrs_keys"]:
+                    fails.append((k, "grow/values", "step %d growing object %d by a vertex and an element gave something else" % (k, target)))
             else:
                 ci = {"edges": 0, "faces": 1, "cells": 2}[op[2]]
                 want = [list(map(list, x)) for x in t0["elems"]]
@@ -353,6 +387,33 @@ def merge_expected(srcs):
         foff += len(Fc)
         coff += len(C)
     return out
+
+
+def check_conn(obj, ans):
+    """every connectivity answer against the object's own element lists (direct inspection)"""
+    E, Fc, _ = obj["elems"]
+    n = len(obj["xyz"])
+    for kk, got in enumerate(ans["edge_id"]):
+        if got is None or not (0 <= got < len(E)) or E[got] != E[kk]:
+            return "edge_id%s = %s, the object's edges are %s" % (tuple(E[kk]), got, _short(E))
+    for a, b, got in ans["non_edge"]:
+        if got is not None:
+            return "edge_id(%d,%d) = %s although the object has no such edge" % (a, b, got)
+    for v in range(n):
+        want = sorted({e[1] if e[0] == v else e[0] for e in E if v in e})
+        got = ans["v2v"][v] if v < len(ans["v2v"]) else "missing"
+        if (got or []) != want and not (got is None and not want):
+            return "vertex_to_vertices(%d) = %s, own edges give %s" % (v, got, want)
+    for kk, got in enumerate(ans["face_id"]):
+        if got is None or not (0 <= got < len(Fc)) or sorted(Fc[got]) != sorted(Fc[kk]):
+            return "face_id%s = %s, the object's faces are %s" % (tuple(Fc[kk]), got, _short(Fc))
+    if ans["v2f"]:
+        for v in range(n):
+            want = sorted(j for j, f in enumerate(Fc) if v in f)
+            got = ans["v2f"][v]
+            if (got or []) != want and not (got is None and not want):
+                return "vertex_to_faces(%d) = %s, own faces give %s" % (v, got, want)
+    return None
 
 
 def _span0(xyz):
